@@ -72,6 +72,8 @@ RULE = (
     'repeated, wrong-type, silent or unexpected-error response. distinct by the whole case.'
 )
 ASSUMPTIONS = [
+    'a caller that gives up a read (task.cancel(), an enclosing asyncio.wait_for) is ordinary use of the asyncio API; the abandoned call '
+    'may end any way it likes, the reads that FOLLOW on the same bearer must return the exact current value (operation read_giveup)',
     'all generated attributes are readable and writeable without security (permissions are C11)',
     'a plain Write Request/Command is only asserted for values of at most ATT_MTU-3 bytes',
     'the client API offers Write Request and Write Command only (no prepared / long writes), so a written value has at most min(ATT_MTU-3, 512) bytes; '
@@ -409,6 +411,13 @@ def db_case(draw, focus=None):
             o[4], o[6] = ['mtu', 0], with_response
             block.insert(draw(st.integers(0, len(block))), o)
         ops += block
+    if focus == 'giveup' or (focus is None and draw(st.integers(0, 5)) == 0):
+        # a caller gives up a read (task.cancel() after `hops` loop iterations and `ms` virtual ms: before the request
+        # left, while it is outstanding, after the answer came), then the same client reads again at once:
+        # [bearer, characteristic that was being read, hops, ms, how ('cancel' | 'wait_for'), the characteristics read next]
+        giveup = st.tuples(st.just('read_giveup'), st.one_of(st.just(0), idx), idx, st.integers(0, 8), st.sampled_from([0, 0, 0, 1, 3, 20]),
+                           st.sampled_from(['cancel', 'cancel', 'wait_for']), st.lists(idx, min_size=1, max_size=3))
+        ops += [list(o) for o in draw(st.lists(giveup, min_size=1, max_size=3))]
     if draw(st.integers(0, 3)) == 0:
         # a subscribed client drops its connection and comes back (usually on the same connection handle), then the
         # server sends again: the new connection has subscribed to nothing
@@ -1419,6 +1428,50 @@ async def _run_ops(loop, case, S, fail, sniffer, server, L, my_chars, sub_chars,
                     labels.add('write_beyond:applied' if bytes(now) == value else 'write_beyond:not_applied')
                     if len(now) <= MAX_VALUE and not await _read_and_compare(S, fail, rb, handle, bytes(now), f'{what} after an oversized write of'):
                         raise _Abort()
+        elif name == 'read_giveup':
+            if not my_chars:
+                continue
+            b = bearers[alive(op[1])]
+            first = my_chars[op[2] % len(my_chars)]
+            hops, ms, how = int(op[3]), int(op[4]), op[5]
+            labels.add('read_giveup')
+            labels.add(f'read_giveup:{how}')
+            before = len(sniffer.log) if hasattr(sniffer, 'log') else None
+
+            async def abandoned_read():
+                if how == 'wait_for':
+                    return await asyncio.wait_for(b['client'].read_value(first['vh']), max(ms, 0) / 1000.0 + 1e-9)
+                return await b['client'].read_value(first['vh'])
+
+            task = loop.create_task(abandoned_read())
+            if how == 'cancel':
+                for _ in range(hops):
+                    await asyncio.sleep(0)
+                if ms:
+                    await asyncio.sleep(ms / 1000.0)
+                task.cancel()
+            try:
+                got = await task
+                labels.add('read_giveup:answered_first')
+                if bytes(got) != bytes(first['value_obj'].value):
+                    fail('read_value/mismatch/after_giveup', f'the read that was about to be given up returned {hx(got)}')
+                    raise _Abort()
+            except (asyncio.CancelledError, asyncio.TimeoutError, TimeoutError):
+                labels.add('read_giveup:given_up')
+            except _Abort:
+                raise
+            except Exception as e:  # noqa: BLE001 - the abandoned call may end any way it likes
+                labels.add(f'read_giveup:raised:{type(e).__name__}')
+            # the same client goes on at once, on the same bearer: every following read returns the exact current value
+            for nxt in op[6]:
+                lc = my_chars[int(nxt) % len(my_chars)]
+                if lc['vh'] != first['vh']:
+                    labels.add('read_giveup:then_other_characteristic')
+                if not await _read_and_compare(S, fail, b, lc['vh'], bytes(lc['value_obj'].value),
+                                               'characteristic value (right after another read was given up)',
+                                               sig='read_value/mismatch/after_giveup'):
+                    raise _Abort()
+            S['nontrivial'] = True
         elif name == 'read':
             if not my_chars:
                 continue
@@ -1923,6 +1976,7 @@ def run(ctx) -> None:
         ctx.hyp(f'db_{focus}', lambda c: run_db_case(ctx, c), db_case(focus), max_examples=ctx.n(45, 1600))
     for focus in ('writes', 'writes_max'):
         ctx.hyp(f'db_{focus}', lambda c: run_db_case(ctx, c), db_case(focus), max_examples=ctx.n(20, 800))
+    ctx.hyp('db_giveup', lambda c: run_db_case(ctx, c), db_case('giveup'), max_examples=ctx.n(40, 1600))
     ctx.hyp('script', lambda c: run_script_case(ctx, c), script_case(), max_examples=ctx.n(1200, 32000))
     for label, n in (
         ('clients:2', 5), ('clients:3', 3), ('eatt_bearer', 5), ('included_service', 10), ('secondary_service', 10),
@@ -1945,6 +1999,8 @@ def run(ctx) -> None:
         ('writev', 20), ('write_readback', 20), ('write_len:512:request', 3), ('write_len:512:command', 3), ('write_len:mtu-3:request', 8),
         ('write_len:mtu-3:command', 8), ('write_len:0', 2), ('write_len:beyond', 1), ('write:descriptor', 3), ('write_on_eatt', 2),
         ('write_readback:other_bearer', 3),
+        # a caller gives up a read, the client reads on
+        ('read_giveup', 30), ('read_giveup:given_up', 15), ('read_giveup:then_other_characteristic', 10), ('read_giveup:wait_for', 5),
     ):
         ctx.floor(label, n)
     for p in PROCS:
